@@ -264,3 +264,22 @@ def shrink(item, rerun):
     out = dict(item)
     out.update({"case": c, "impl": impl, "model": model, "spec_verdict": sb, "shrunk_from_tokens": len(case.split())})
     return out
+
+MANIFEST = {
+    "text": "Coq theorem C09_transparent, for every request sequence, every behaviour of the wrapped allocator (an arbitrary "
+            "function from the history of requests it received to its answer, null included), both builds and a present or absent "
+            "tally slot: the calls reaching the wrapped allocator are exactly the requests (same method, layout, pointer, new_size, "
+            "order; one per request) and the caller gets exactly its answers; C09_tally_independent (the tally is a function of the "
+            "requests alone: the code tallies before the inner call, failed or not); C09_panic_only_from_tally, C09_release_total, "
+            "C09_no_slot_total, C09_guarded_total. This logic core is near-definitional; the weight is on the correspondence: the real "
+            "AllocProfiler around a mock that logs every call and answers from a script (null about 1 in 6), sizes 0..2^40 and up to "
+            "isize::MAX, alignments 1..4096, compared op by op with the model and judged by the extracted specification. The clause "
+            "'never allocates or re-enters itself, also on threads starting up or shutting down' is TESTED, NOT PROVED: "
+            "Outer<AllocProfiler<Inner<System>>> as #[global_allocator] in a separate process, ring of enter/exit events from the "
+            "first allocation on, thread churn, unwinding threads, TLS-destructor allocation, exit with live allocating threads.",
+    "note": "All theorems closed under the global context. Trusted: Coq kernel, extraction, OCaml driver, harness/hx-alloc (Mock; "
+            "the Outer/Inner ring layers, workload and ring analysis of hx-alloc-global). The run-time part is a test on x86_64 Linux "
+            "(const thread_local without destructor), not a proof; the macOS pthread-key path is not covered.",
+    "technique": "machine-checked proof in Coq (near-definitional core) + differential correspondence against the real crate with a "
+                 "logging/scripted mock allocator + run-time test with layered global allocators",
+}
